@@ -58,7 +58,19 @@ CLAIM = {
             'repr(float) for float fields; numpy-float formatting = Python-float formatting is checked per generated '
             'value); container/array-valued template fields, np.longdouble beyond binary64 (known finding), NaN '
             '(== is not reflexive) and dict keys _is_set/_is_numpy_array (known finding with negative witness) are '
-            'outside the supported set; pickle is modelled as storing the object itself.',
+            'outside the supported set; pickle is modelled as storing the object itself. Robustness classes: R1 '
+            '(element types) by theorem (enc_norm, dec_enc, filename_same_after_reload: functions of the value only, '
+            'not of the numpy type) + twin oracle (same values as Python scalars give the same JSON and loaded object); '
+            'R2 (layout/shape) by theorem over the logical array value for every shape incl. 0-d and zero-sized + '
+            'layout twins in correspondence and oracles; R4 (rejected save leaves object and store unchanged) by '
+            'theorem save_rejected_leaves_state + correspondence of the state after a rejected call + oracle '
+            '(unknown extension, unserialisable complex value, unwritable path, existing file intact, no stray file); '
+            'R5/R6 (falsy, single-element, denormal..1e300, beyond 2^53/2^63, inf) are instances of the all-values '
+            'theorems and are enumerated deterministically through correspondence and oracles in every run; R3 '
+            '(saving does not modify the object: theorem save_modifies_only_original_filename; no aliasing between '
+            'saved and loaded objects, dict forms are snapshots) and R7 (file is a snapshot, shared parameters object, '
+            'save/load chains, two loads independent) by oracle only - the functional model has no aliasing. '
+            'Tuples (known finding) and complex values (rejected with TypeError, checked) are not supported values.',
 }
 
 RESERVED = ('_is_set', '_is_numpy_array')
@@ -367,10 +379,10 @@ def sim_in(s):
     return ' '.join(parts)
 
 
-def sim_state(s):
+def sim_state(s, fname=True):
     results = canon_dict([(n, ' '.join(['L%d' % len(rs)] + [result_state(r) for r in rs])) for n, rs in s._results.items()])
     return canon_dict([('params', params_state(s._params)), ('runned_reps', tok(s.runned_reps, True)),
-                       ('original_filename', tok(s.original_filename, True)),
+                       ('original_filename', tok(s.original_filename, True) if fname else 'N'),
                        ('current_rep', tok(s.current_rep, True)), ('results', results)])
 
 
@@ -542,6 +554,8 @@ def build_sim(ss):
             s.append_result(build_result(rs))
     s.runned_reps = build(ss['runned_reps'])
     s.current_rep = ss['current_rep']
+    if ss.get('prev_filename') is not None:
+        s.original_filename = ss['prev_filename']      # the object was saved before, under another template
     return s
 
 
@@ -551,8 +565,10 @@ def result_features(rs):
         f.add('never-updated')
     if rs['acc']:
         f.add('accumulate')
+    if rs['type'] == 3 and any(v[0] in ('bool', 'npbool') for v, _ in rs['history']):
+        f.add('bool-index')
     if rs['type'] == 3 and rs['acc']:
-        idx = [int(build(v)) % max(1, rs['choice_num']) for v, _ in rs['history']]
+        idx = [int(np.asarray(build(v))) % max(1, rs['choice_num']) for v, _ in rs['history']]
         if idx != sorted(idx):
             f.add('unsorted-history')
     for v, t in rs['history']:
@@ -652,6 +668,13 @@ def _value_failure(spec):
             return 'JSON differs from the JSON of the C-contiguous array with the same values'
         if tok(json.loads(text_t, object_hook=S.json_numpy_or_set_obj_hook), True) != tok(w, True):
             return 'loaded value differs from the loaded C-contiguous twin'
+    # R1: the same values as plain Python scalars give the same JSON and the same loaded object
+    pt = plain_deep(v)
+    text_p = json.dumps(pt, cls=S.NumpyOrSetEncoder)
+    if text_tree(text_p) != text_tree(text):
+        return 'JSON differs from the JSON of the same values given as Python scalars'
+    if tok(json.loads(text_p, object_hook=S.json_numpy_or_set_obj_hook), True) != tok(w, True):
+        return 'loaded value differs from the loaded Python-scalar twin'
     u = pickle.loads(pickle.dumps(v, protocol=2))
     if tok(u, True) != tok(v, True):
         return 'pickle changed the value: %r -> %r' % (v, u)
@@ -1070,6 +1093,239 @@ def o_reserved(case):
     return None
 
 
+
+# ------------------------------------------------ robustness (R3 / R4 / R7)
+def mutate_sim(q):
+    """change everything that can be changed in place in a SimulationResults
+    object (used to detect sharing between a saved and a loaded object)"""
+    def mut(v):
+        if isinstance(v, list):
+            for x in v:
+                mut(x)
+            v.append('mutated')
+        elif isinstance(v, set):
+            v.add('mutated')
+        elif isinstance(v, np.ndarray) and v.flags.writeable and v.size > 0:
+            if v.dtype.kind == 'b':
+                np.logical_not(v, out=v)
+            else:
+                v += 1
+    chain = params_chain(q._params)
+    for p in chain:
+        for v in list(p.parameters.values()):
+            mut(v)
+        p.parameters['mutated'] = 1
+        p._unpacked_parameters_set.add('mutated')
+    for rs in q._results.values():
+        for r in rs:
+            mut(r._value)
+            mut(r._value_list)
+            mut(r._total_list)
+            r.num_updates += 1
+        rs.append(rs[0])
+    q._results['mutated'] = []
+    mut(q.runned_reps)
+    q.current_rep += 1
+
+
+def _files_with_prefix(prefix):
+    d = os.path.dirname(prefix)
+    return sorted(f for f in os.listdir(d) if f.startswith(os.path.basename(prefix)))
+
+
+def _cleanup(prefix):
+    d = os.path.dirname(prefix)
+    for f in _files_with_prefix(prefix):
+        try:
+            os.remove(os.path.join(d, f))
+        except OSError:
+            pass
+
+
+def o_robust(case):
+    """R3 input immutability / no aliasing, R4 rejected calls, R7 long-lived and
+    shared objects, on one SimulationResults spec (`template` required).
+    The class names the scenario and the format that failed."""
+    P, R, SR = _impl()[0], _impl()[1], _impl()[2]
+    ss = dict(case)
+    u = unbuildable(ss)
+    if u is not None:
+        return None
+    import zlib
+    # file names start with a field-free prefix so that everything written can be found and removed
+    base = os.path.join(_tmpdir(), 'rb%08x' % zlib.crc32(json.dumps(case, sort_keys=True).encode()))
+    try:
+        return _robust(ss, base, P, R, SR)
+    finally:
+        _cleanup(base)
+
+
+def _robust(ss, base, P, R, SR):
+    # ---------------- R3: encoding / saving does not modify the object
+    s = build_sim(ss)
+    before = sim_state(s)
+    for what, fn in (('to_json', lambda: s.to_json()), ('to_dict', lambda: s.to_dict()),
+                     ('pickle.dumps', lambda: pickle.dumps(s, protocol=2)),
+                     ('params.to_json', lambda: s._params.to_json()),
+                     ('get_filename', lambda: s.get_filename_with_replaced_params(base))):
+        fn()
+        if sim_state(s) != before:
+            return 'R3:%s-modifies-object' % what, 'state changed by %s()' % what
+    template = base + '_' + ss['template'] + '_{missing}'
+    tpl_copy = ''.join(template)
+    for ext in ('.json', '.pickle'):
+        s = build_sim(ss)
+        before = sim_state(s, fname=False)
+        actual = s.save_to_file(template + ext)
+        if sim_state(s, fname=False) != before:
+            return 'R3:save-modifies-object:' + ext, 'a field other than original_filename changed'
+        if s.original_filename != tpl_copy + ext or template != tpl_copy:
+            return 'R3:save-modifies-object:' + ext, 'original_filename / template: %r' % (s.original_filename,)
+        saved_state = sim_state(s)
+        # ------------ R7: the file is a snapshot; R3: the loaded object shares nothing with the saved one
+        q = SR.load_from_file(actual)
+        at_save = sim_state(q)
+        mutate_sim(q)
+        if sim_state(s) != saved_state:
+            return 'R3:loaded-aliases-saved:' + ext, 'changing the loaded object changed the saved one'
+        mutate_sim(s)
+        q1, q2 = SR.load_from_file(actual), SR.load_from_file(actual)
+        if sim_state(q1) != at_save or sim_state(q2) != at_save:
+            return 'R7:file-not-a-snapshot:' + ext, 'the file changed when the saved object was modified later'
+        mutate_sim(q1)
+        if sim_state(q2) != at_save:
+            return 'R7:loaded-twice-not-independent:' + ext, 'two loads of one file share state'
+        # ------------ R7: save / load / save / load
+        x = q2
+        for i in range(3):
+            x = SR.load_from_file(x.save_to_file(template + '_chain%d' % i + ext))
+            st = sim_state(x, fname=False)
+            if st != sim_state(q2, fname=False):
+                return 'R7:chain-drifts:' + ext, 'state after %d more save/load differs' % (i + 1)
+    # ---------------- R3: the dict forms are snapshots too
+    s = build_sim(ss)
+    before = sim_state(s)
+    for what, mk in (('SimulationResults.from_dict(to_dict)', lambda: SR.from_dict(s.to_dict())),
+                     ('SimulationResults.from_json(to_json)', lambda: SR.from_json(s.to_json()))):
+        q = mk()
+        mutate_sim(q)
+        if sim_state(s) != before:
+            return 'R3:loaded-aliases-saved:' + what.split('(')[0].split('.')[-1], what + ' shares state with the original'
+    p = s._params
+    pb = params_state(p)
+    qp = P.from_dict(p.to_dict())
+    qp.parameters['mutated'] = 1
+    qp._unpacked_parameters_set.add('mutated')
+    for v in qp.parameters.values():
+        if isinstance(v, list):
+            v.append('mutated')
+        elif isinstance(v, set):
+            v.add('mutated')
+    if params_state(p) != pb:
+        return 'R3:loaded-aliases-saved:params.from_dict', 'SimulationParameters.from_dict(to_dict()) shares state'
+    for rs in s._results.values():
+        for r in rs:
+            rb = result_state(r)
+            qr = R.from_dict(r.to_dict())
+            qr._value_list.append('mutated')
+            qr._total_list.append('mutated')
+            if isinstance(qr._value, list):
+                qr._value.append('mutated')
+            if result_state(r) != rb:
+                return 'R3:loaded-aliases-saved:result.from_dict', 'Result.from_dict(to_dict()) shares state'
+    # ---------------- R4: rejected calls
+    s = build_sim(ss)
+    good = s.save_to_file(base + '_r4.json')                 # an existing file that must survive
+    with open(good, 'rb') as f:
+        good_bytes = f.read()
+    s.original_filename = ss.get('prev_filename')
+    before = sim_state(s)
+    rejected = [('unknown-extension', lambda: s.save_to_file(base + '_r4.txt'), False),
+                ('unwritable-path', lambda: s.save_to_file(os.path.join(_tmpdir(), 'no_such_dir', 'x.json')), False),
+                ('unserialisable-value', lambda: s.save_to_file(base + '_r4.json'), True)]
+    for kind, call, poison in rejected:
+        if poison:
+            s._params.parameters['cplx'] = complex(1, 2)
+            before = sim_state_tolerant(s)
+        try:
+            call()
+            raised = False
+        except Exception:
+            raised = True
+        if not raised:
+            return 'R4:%s:accepted' % kind, 'the call did not raise'
+        after = sim_state_tolerant(s) if poison else sim_state(s)
+        if after != before:
+            return 'R4:%s:object-modified' % kind, 'the rejected call changed the object (original_filename %r)' % (s.original_filename,)
+        try:
+            with open(good, 'rb') as f:
+                now = f.read()
+        except OSError:
+            now = None
+        if now != good_bytes:
+            return 'R4:%s:existing-file-damaged' % kind, 'an existing results file %s' % (
+                'was removed' if now is None else 'changed')
+        if [f for f in _files_with_prefix(base + '_r4') if not f.endswith('_r4.json')]:
+            return 'R4:%s:stray-file' % kind, 'files left behind: %r' % (_files_with_prefix(base + '_r4'),)
+    # continue the history: the object behaves like one that never saw the rejected calls
+    del s._params.parameters['cplx']
+    fresh = build_sim(ss)
+    a = SR.load_from_file(s.save_to_file(base + '_r4b.json'))
+    b = SR.load_from_file(fresh.save_to_file(base + '_r4c.json'))
+    if sim_state(a, fname=False) != sim_state(b, fname=False):
+        return 'R4:later-save-differs', 'after rejected calls a save differs from the save of a fresh object'
+    # ---------------- R7: one parameters object shared by two results objects
+    p = build_params(ss['params'])
+    s1, s2 = build_sim(ss), build_sim(dict(ss, current_rep=ss['current_rep'] + 1))
+    s1.set_parameters(p)
+    s2.set_parameters(p)
+    pb, s2b = params_state(p), sim_state(s2)
+    for ext in ('.json', '.pickle'):
+        q = SR.load_from_file(s1.save_to_file(base + '_shared' + ext))
+        s1.to_json()
+        if params_state(p) != pb or sim_state(s2) != s2b:
+            return 'R7:shared-params-modified:' + ext, 'saving one results object changed the shared parameters / the other object'
+        mutate_sim(q)
+        if params_state(p) != pb or sim_state(s2) != s2b:
+            return 'R7:shared-params-modified:' + ext, 'the loaded object shares the parameters object'
+    return None
+
+
+def sim_state_tolerant(s):
+    """state of an object that holds the unserialisable complex parameter"""
+    keep = s._params.parameters.pop('cplx')
+    try:
+        return sim_state(s)
+    finally:
+        s._params.parameters['cplx'] = keep
+
+
+def o_tuple(case):
+    """a tuple-valued parameter (JSON has no tuples)"""
+    P = _impl()[0]
+    p = P.create({'t': tuple(build(x) for x in case['items']), 'x': 1})
+    q = P.from_json(p.to_json())
+    if not isinstance(q.parameters['t'], tuple) or not (p == q):
+        return 'value:tuple', 'tuple %r became %r (== gives %r)' % (p.parameters['t'], q.parameters['t'], p == q)
+    return None
+
+
+def o_complex_rejected(case):
+    """complex values are not supported: they must be rejected cleanly (TypeError), never stored wrongly"""
+    S = _impl()[3]
+    v = {'scalar': complex(1, 2), 'npscalar': np.complex64(1 + 2j), 'array': np.array([1 + 2j, 3])}[case['kind']]
+    try:
+        text = json.dumps({'v': v}, cls=S.NumpyOrSetEncoder)
+    except TypeError:
+        return None
+    except Exception as e:
+        return 'complex:%s:wrong-exception' % case['kind'], repr(e)[:100]
+    w = json.loads(text, object_hook=S.json_numpy_or_set_obj_hook)['v']
+    if not np.array_equal(np.asarray(w), np.asarray(v)):
+        return 'complex:%s:stored-wrongly' % case['kind'], '%r became %r' % (v, w)
+    return None
+
+
 ORACLES = {
     'json.roundtrip': o_value,
     'json.roundtrip.longdouble': o_longdouble,
@@ -1079,6 +1335,9 @@ ORACLES = {
     'SimulationResults.roundtrip': o_sim,
     'SimulationResults.filename': o_filename,
     'SimulationResults.filename.set': o_filename_set,
+    'SimulationResults.robustness': o_robust,
+    'SimulationParameters.roundtrip.tuple': o_tuple,
+    'json.rejects-complex': o_complex_rejected,
 }
 
 
@@ -1218,6 +1477,17 @@ def plain(v):
         return int(v)
     if isinstance(v, np.floating):
         return float(v)
+    return v
+
+
+def plain_deep(v):
+    """the value with every numpy scalar replaced by the Python scalar of the same value"""
+    if isinstance(v, list):
+        return [plain_deep(x) for x in v]
+    if isinstance(v, (set, frozenset)):
+        return set(plain_deep(x) for x in v)
+    if isinstance(v, np.generic):
+        return plain(v)
     return v
 
 
@@ -1374,6 +1644,11 @@ def finite(spec):
     return True
 
 
+def n_choices_bool(n, i):
+    """True/False can stand for the index i"""
+    return i in (0, 1) and n > i
+
+
 def gen_result(rng, name=None, rtype=None):
     t = rng.below(4) if rtype is None else rtype
     rs = {'name': name if name is not None else gen_str(rng), 'type': t, 'acc': rng.chance(0.4),
@@ -1384,7 +1659,13 @@ def gen_result(rng, name=None, rtype=None):
         for _ in range(k):
             i = rng.randint(-rs['choice_num'], rs['choice_num'] - 1) if rng.chance(0.2) else rng.randint(0, rs['choice_num'] - 1)
             c = rng.below(4)
-            rs['history'].append([(['int', i] if c <= 1 else ['npint', rng.choice(['int8', 'int16', 'int32', 'int64']), i]), None])
+            if n_choices_bool(rs['choice_num'], i) and rng.chance(0.1):
+                spec = rng.choice([['npbool', bool(i)], ['bool', bool(i)]])
+            elif rng.chance(0.08):
+                spec = ['array', rng.choice(['int64', 'int16', 'uint8'] if i >= 0 else ['int64', 'int16']), [], [i]]   # 0-d array
+            else:
+                spec = ['int', i] if c <= 1 else ['npint', rng.choice(['int8', 'int16', 'int32', 'int64']), i]
+            rs['history'].append([spec, None])
     elif t == 2:
         for _ in range(k):
             rs['history'].append([gen_value(rng, 2, allow_array=rng.chance(0.35)), None])
@@ -1430,10 +1711,11 @@ def gen_sim(rng, with_template=True):
         for _ in range(rng.choice([0, 0, 1, 2])):
             group.append(gen_result(rng, name, t))
         groups.append(group)
-    rr = rng.choice([['none'], ['int', rng.randint(0, 1000)],
-                     ['list', [['int', rng.randint(0, 1000)] for _ in range(rng.randint(0, 4))]]])
+    rr = rng.choice([['none'], ['int', rng.randint(0, 1000)], ['int', 0], ['list', [['int', 0]]],
+                     ['list', [['int', rng.choice([0, rng.randint(0, 1000)])] for _ in range(rng.randint(0, 4))]]])
     ss = {'params': ps, 'results': groups, 'runned_reps': rr,
-          'current_rep': rng.choice([-1, -1, 0, 3, rng.randint(0, 10 ** 6)]), 'template': None}
+          'current_rep': rng.choice([-1, -1, 0, 0, 3, rng.randint(0, 10 ** 6)]), 'template': None,
+          'prev_filename': rng.choice([None, None, '', 'old_{snr}.pickle', 'previous.json'])}
     if with_template:
         # final parameter dictionary of the object that is saved
         fields = []
@@ -1554,7 +1836,7 @@ def corr_value(ctx, b, spec, variants=True):
     nontriv = spec[0] in ('list', 'set', 'array') or spec[0].startswith('np')
 
     def enc():
-        return tok(json.loads(json.dumps(v, cls=S.NumpyOrSetEncoder)), True)
+        return text_tree(json.dumps(v, cls=S.NumpyOrSetEncoder))
 
     def rt():
         return 'ok ' + tok(json.loads(json.dumps(v, cls=S.NumpyOrSetEncoder), object_hook=S.json_numpy_or_set_obj_hook), True)
@@ -1580,7 +1862,7 @@ def corr_params(ctx, b, ps, variants=True):
     key = json.dumps(ps, sort_keys=True)
     nontriv = len(ps['params']) > 0
     b.add('SimulationParameters.to_json(tree)', ps, 'paramsenc ' + line,
-          safe(lambda: tok(json.loads(p.to_json()), True)), nontrivial=nontriv, key=('penc', key))
+          safe(lambda: text_tree(p.to_json())), nontrivial=nontriv, key=('penc', key))
     b.add('SimulationParameters.from_json∘to_json', ps, 'params %d %s' % (depth + 1, line),
           safe(lambda: 'ok ' + params_state(P.from_json(p.to_json()))), prefix='wf=1', nontrivial=nontriv,
           key=('params', key))
@@ -1612,7 +1894,7 @@ def corr_result(ctx, b, rs):
         return
     key = json.dumps(rs, sort_keys=True)
     nontriv = len(rs['history']) > 0
-    b.add('Result.to_json(tree)', rs, 'resultenc ' + line, safe(lambda: tok(json.loads(r.to_json()), True)),
+    b.add('Result.to_json(tree)', rs, 'resultenc ' + line, safe(lambda: text_tree(r.to_json())),
           nontrivial=nontriv, key=('renc', key))
     b.add('Result.from_json∘to_json', rs, 'result ' + line, safe(lambda: 'ok ' + result_state(R.from_json(r.to_json()))),
           prefix='good=1', nontrivial=nontriv, key=('result', key))
@@ -1631,7 +1913,7 @@ def corr_choice_errors(ctx, b, rng):
     R = _impl()[1]
     n = rng.randint(1, 4)
     good = [rng.randint(0, n - 1) for _ in range(rng.randint(0, 3))]
-    bad = rng.choice([n, n + 3, -n - 1, 0.5, 'a', None])
+    bad = rng.choice([n, n + 3, -n - 1, 0.5, 'a', None, np.float32(0.0), np.int8(n), np.array(n + 1), np.array(0.0)])
     r = R('c', 3, accumulate_values=True, choice_num=n)
     res = None
     try:
@@ -1640,7 +1922,7 @@ def corr_choice_errors(ctx, b, rng):
         res = 'ok'
     except Exception as e:
         res = exc_name(e)
-    case = {'choice_num': n, 'history': good + [bad]}
+    case = {'choice_num': n, 'history': good + [repr(bad)]}
     line = 'choice L4 %s T i%d %s' % (tok_str('c'), n, tok(good + [bad]))
     b.add('Result.update(CHOICETYPE).rejects', case, line, res, key=('choice-bad', json.dumps(case)))
 
@@ -1663,7 +1945,7 @@ def corr_sim(ctx, b, ss):
     depth = len(params_chain(s._params))
     key = json.dumps(ss, sort_keys=True)
     nontriv = len(ss['results']) > 0 or len(ss['params']['params']) > 0
-    b.add('SimulationResults.to_json(tree)', ss, 'simenc ' + line, safe(lambda: tok(json.loads(s.to_json()), True)),
+    b.add('SimulationResults.to_json(tree)', ss, 'simenc ' + line, safe(lambda: text_tree(s.to_json())),
           nontrivial=nontriv, key=('senc', key))
     b.add('SimulationResults.from_json∘to_json', ss, 'sim %d %s' % (depth + 1, line),
           safe(lambda: 'ok ' + sim_state(SR.from_json(s.to_json()))), prefix='wf=1', nontrivial=nontriv, key=('sim', key))
@@ -1681,7 +1963,12 @@ def corr_sim(ctx, b, ss):
         s = build_sim(ss)
 
         def run():
-            actual = s.save_to_file(tpl + ext)
+            try:
+                actual = s.save_to_file(tpl + ext)
+            except Exception as e:
+                # R4: what the object and the folder look like after the rejected call
+                left = [f for f in os.listdir(_tmpdir()) if f.startswith(os.path.basename(tpl))]
+                return '%s state=%s files=%d' % (exc_name(e), sim_state(s), len(left))
             q = SR.load_from_file(actual)
             try:
                 os.remove(actual)
@@ -1693,6 +1980,8 @@ def corr_sim(ctx, b, ss):
         b.add('save_to_file/load_from_file' + (ext or '(no extension)'), ss, line, impl,
               key=('file', ext, key))
         ctx.branch('file:' + (ext or 'none'))
+        if ext == '.txt':
+            ctx.branch('R4:rejected-save-state-compared')
 
 
 def template_segments(tpl, parameters, ctx=None):
@@ -1792,6 +2081,8 @@ def corpus_results():
     out.append({'name': 'c', 'type': 3, 'acc': True, 'choice_num': 4,
                 'history': [[['int', 3], None], [['int', 1], None], [['npint', 'int8', 0], None], [['int', -1], None]]})
     out.append({'name': 'c', 'type': 3, 'acc': False, 'choice_num': 2, 'history': [[['int', 1], None]] * 3})
+    out.append({'name': 'b', 'type': 3, 'acc': False, 'choice_num': 3,
+                'history': [[['bool', True], None], [['npbool', False], None], [['array', 'int16', [], [2]], None]]})
     out.append({'name': 's', 'type': 0, 'acc': True, 'choice_num': None,
                 'history': [[['npfloat', 'float32', fhex(0.5)], None], [['npfloat', 'float32', fhex(0.25)], None]]})
     out.append({'name': 'h', 'type': 2, 'acc': True, 'choice_num': None,
@@ -1827,10 +2118,117 @@ def corpus_params():
     ]
 
 
+def boundary_values():
+    """R5: falsy and single-element values of every kind (a field read back with
+    `or`, `if x:` or a default would lose them)"""
+    falsy = [['int', 0], ['float', fhex(0.0)], ['float', fhex(-0.0)], ['bool', False], ['str', ''], ['none'],
+             ['npbool', False], ['list', []], ['set', []], ['int', 1], ['bool', True]]
+    falsy += [['npint', dt, 0] for dt in INT_DTYPES] + [['npfloat', dt, fhex(0.0)] for dt in FLOAT_DTYPES]
+    out = list(falsy)
+    for f in falsy[:9] + [['npint', 'int16', 0], ['npfloat', 'float32', fhex(0.0)]]:
+        out.append(['list', [f]])
+        if f[0] not in ('list', 'set'):
+            out.append(['set', [f]])
+        out.append(['list', [['list', [f]]]])
+    for dt in INT_DTYPES + FLOAT_DTYPES + ['bool']:
+        zero = False if dt == 'bool' else (fhex(0.0) if dt in FLOAT_DTYPES else 0)
+        out += [['array', dt, [0], []], ['array', dt, [1], [zero]], ['array', dt, [], [zero]],
+                ['array', dt, [1, 1], [zero]], ['array', dt, [1, 0], []], ['array', dt, [3, 1], [zero] * 3],
+                ['array', dt, [1, 3], [zero] * 3]]
+    return out
+
+
+def scale_values():
+    """R6: magnitudes from denormals to the largest finite values, integers beyond 2^53 and 2^63"""
+    fl = [1e-300, 1e300, 5e-324, 2.2250738585072014e-308, 1.7976931348623157e308, 1e-12, 1e12, 1e-150, 1e150,
+          float('inf'), float('-inf'), 2.0 ** 53, 2.0 ** 53 + 2, 1 / 3.0, 1e22, 1e23]
+    fl += [-x for x in fl[:9]]
+    ints = [2 ** 53, 2 ** 53 + 1, 2 ** 63 - 1, 2 ** 63, 2 ** 64 - 1, 2 ** 64, -2 ** 63, -2 ** 63 - 1, 10 ** 30, -10 ** 30,
+            2 ** 200]
+    out = [['float', fhex(x)] for x in fl] + [['int', i] for i in ints]
+    out += [['npfloat', 'float64', fhex(x)] for x in fl]
+    out += [['npfloat', 'float32', fhex(float(np.float32(x)))] for x in (1e-45, 1e-38, 3.4028235e38, 1e-12, 1e12)]
+    out += [['npfloat', 'float16', fhex(float(np.float16(x)))] for x in (6e-8, 6.1e-5, 65504.0)]
+    out += [['npint', 'int64', 2 ** 63 - 1], ['npint', 'int64', -2 ** 63], ['npint', 'uint64', 2 ** 64 - 1],
+            ['npint', 'int64', 2 ** 53 + 1], ['npint', 'uint64', 2 ** 63]]
+    out += [['array', 'float64', [len(fl)], [fhex(x) for x in fl]],
+            ['array', 'float64', [2, 3], [fhex(x) for x in (1e-300, 1e300, 5e-324, -1e300, 1e-12, 1e12)], 'F'],
+            ['array', 'int64', [3], [2 ** 63 - 1, -2 ** 63, 2 ** 53 + 1]],
+            ['array', 'uint64', [2], [2 ** 64 - 1, 2 ** 63]],
+            ['list', [['float', fhex(1e-300)], ['int', 2 ** 64], ['float', fhex(1e300)]]],
+            ['set', [['float', fhex(5e-324)], ['int', 2 ** 63], ['float', fhex(float('inf'))]]]]
+    return out
+
+
+def robustness_specs(values):
+    """every value as a bare value, a fixed parameter, an unpacked parameter with
+    the first child (unpack index 0), a MISC result value and, for numbers, SUM /
+    RATIO updates"""
+    for v in values:
+        yield 'value', v
+        yield 'params', {'params': [['p', v], ['q', ['int', 0]]], 'unpack': [], 'child': None, 'via_add': True}
+        if v[0] in ('list', 'set', 'str', 'array') and len_of(v) > 0:
+            yield 'params', {'params': [['p', v], ['q', ['list', [['int', 0], ['int', 1]]]]], 'unpack': ['p', 'q'],
+                             'child': 0, 'via_add': False}
+        if v[0] != 'array' or True:
+            yield 'result', {'name': 'm', 'type': 2, 'acc': True, 'choice_num': None, 'history': [[v, None]]}
+        num = v[0] in ('int', 'float', 'npint', 'npfloat') and finite(v)
+        if num and abs(float(plain(build(v)))) < 1e150:
+            yield 'result', {'name': 's', 'type': 0, 'acc': True, 'choice_num': None, 'history': [[v, None], [v, None]]}
+            yield 'result', {'name': 'r', 'type': 1, 'acc': False, 'choice_num': None,
+                             'history': [[v, ['int', 3]], [['int', 0], ['int', 1]]]}
+
+
+def boundary_sims():
+    """R5 for the fields of SimulationResults itself"""
+    ps = {'params': [['snr', ['int', 0]], ['e', ['str', '']], ['z', ['float', fhex(0.0)]], ['f', ['bool', False]],
+                     ['n', ['none']], ['l', ['list', []]]], 'unpack': [], 'child': None, 'via_add': False}
+    never = [[{'name': 'r%d' % t, 'type': t, 'acc': acc, 'choice_num': (1 if t == 3 else None), 'history': []}]
+             for t in range(4) for acc in (False, True)]
+    zero_updates = [[{'name': 'z0', 'type': 0, 'acc': True, 'choice_num': None, 'history': [[['int', 0], None]]}],
+                    [{'name': 'z1', 'type': 1, 'acc': True, 'choice_num': None, 'history': [[['int', 0], ['int', 1]]]}],
+                    [{'name': 'z2', 'type': 2, 'acc': False, 'choice_num': None, 'history': [[['str', ''], None]]}],
+                    [{'name': 'z3', 'type': 3, 'acc': True, 'choice_num': 1, 'history': [[['int', 0], None]]}],
+                    [{'name': '', 'type': 2, 'acc': False, 'choice_num': None, 'history': [[['bool', False], None]]}]]
+    out = []
+    for rr in (['int', 0], ['list', []], ['list', [['int', 0]]], ['none'], ['int', 1]):
+        for cr in (0, -1, 1):
+            for prev in (None, '', 'x'):
+                out.append({'params': ps, 'results': never + zero_updates, 'runned_reps': rr, 'current_rep': cr,
+                            'template': 'b_{snr}_{e}_{f}_%d_%d' % (len(out), cr + 1), 'prev_filename': prev})
+    ps0 = {'params': [['snr', ['list', [['int', 0], ['int', 1]]]], ['M', ['array', 'int64', [1], [0]]]],
+           'unpack': ['snr', 'M'], 'child': 0, 'via_add': False}
+    out.append({'params': ps0, 'results': never, 'runned_reps': ['int', 0], 'current_rep': 0,
+                'template': 'child0_{snr}', 'prev_filename': None})
+    return out
+
+
+def robustness_pass(ctx, b):
+    """deterministic R5 / R6 enumerations through the correspondence and the oracles"""
+    for tag, values in (('R5:boundary', boundary_values()), ('R6:scale', scale_values())):
+        for kind, spec in robustness_specs(values):
+            if kind == 'value':
+                corr_value(ctx, b, spec)
+                run_value_oracles(ctx, spec)
+            elif kind == 'params':
+                corr_params(ctx, b, spec)
+                run_params_oracles(ctx, spec)
+            else:
+                corr_result(ctx, b, spec)
+                run_oracle(ctx, 'Result.roundtrip', spec)
+            ctx.branch(tag)
+        b.flush()
+    for ss in boundary_sims():
+        corr_sim(ctx, b, ss)
+        run_oracle(ctx, 'SimulationResults.roundtrip', ss)
+        ctx.branch('R5:boundary-sim')
+    b.flush()
+
+
 def sizes(ctx):
     if ctx.tier == 'quick':
         return dict(values=5000, params=2000, results=2500, sims=600, fnames=1200, orc=1200)
-    return dict(values=150000, params=60000, results=75000, sims=14000, fnames=30000, orc=28000)
+    return dict(values=125000, params=50000, results=65000, sims=12000, fnames=25000, orc=23000)
 
 
 def correspondence(ctx):
@@ -1868,6 +2266,7 @@ def correspondence(ctx):
     for _ in range(n['fnames']):
         corr_filename(ctx, b, rng)
     b.flush()
+    robustness_pass(ctx, b)
     if ctx.tier == 'thorough':
         small_scope(ctx, b)
 
@@ -1991,6 +2390,19 @@ def oracle_pass(ctx, scale=1.0):
         run_oracle(ctx, 'SimulationResults.filename', {'template': 'res_{snr}.json', 'params': [['snr', ['int', 5]], ['H', arr]],
                                                        'field': 'snr', 'other': ['int', 6]})
     run_oracle(ctx, 'SimulationResults.filename.set', {'items': [['int', 0], ['int', 8]]})
+    # R3 / R4 / R7 scenarios
+    for ss in boundary_sims()[::9]:
+        run_oracle(ctx, 'SimulationResults.robustness', ss)
+        ctx.branch('R3R4R7:robustness-scenarios')
+    for _ in range(max(30, k // 8)):
+        ss = gen_sim(rng)
+        if 'npfloat:longdouble' in _params_features(ss['params']):
+            continue
+        run_oracle(ctx, 'SimulationResults.robustness', ss)
+        ctx.branch('R3R4R7:robustness-scenarios')
+    run_oracle(ctx, 'SimulationParameters.roundtrip.tuple', {'items': [['int', 1], ['int', 2]]})
+    for kind in ('scalar', 'npscalar', 'array'):
+        run_oracle(ctx, 'json.rejects-complex', {'kind': kind})
 
 
 def check(ctx):
@@ -2002,7 +2414,8 @@ def check(ctx):
                 'files with parameter templates. non-trivial = distinct spec that is a container / numpy scalar / '
                 'has >=1 parameter / >=1 update')
     core.prove(ctx, MODULE, generated=[], drivers=[DRIVER], scratch=ctx.scratch)
-    ctx.required_branches = ['feature:array:non-C-memory-order', 'feature:array:layout=F', 'feature:array:layout=T',
+    ctx.required_branches = ['R5:boundary', 'R5:boundary-sim', 'R6:scale', 'R3R4R7:robustness-scenarios',
+                             'R4:rejected-save-state-compared', 'feature:array:non-C-memory-order', 'feature:array:layout=F', 'feature:array:layout=T',
                              'feature:array:layout=strided', 'feature:array:layout=reversed',
                              'feature:array:layout=broadcast', 'params:array-non-C-memory-order',
                              'feature:npfloat:float32', 'feature:npint:int16', 'feature:array:zero-size-ndim>=2',
